@@ -1377,7 +1377,9 @@ class VariationalWassersteinDistance(darsia.EMD):
         self._compatibility_check(img_1, img_2)
 
         # Determine difference of distributions and define corresponding rhs
-        mass_diff = img_2.img - img_1.img
+        # NOTE: Convert to float first - the difference of unsigned integer typed images
+        # (e.g. uint8 photographs) wraps around.
+        mass_diff = img_2.img.astype(float) - img_1.img.astype(float)
         flat_mass_diff = np.ravel(mass_diff, "F")
 
         # Main method
